@@ -53,7 +53,9 @@ public:
             if (isSubscriptionIdValid(subscriptionId)) {
                 (*observer)(args...);
 
-                if (!observer->isValid()) {
+                // the callback may have unsubscribed this very observer (directly or through
+                // a nested notify), in which case `observer` is already destroyed
+                if (isSubscriptionIdValid(subscriptionId) && !observer->isValid()) {
                     unsubscribeById(subscriptionId);
                 }
             }
